@@ -282,13 +282,15 @@ Proof.
   unfold ring_step. destruct (find_place r (cm_order c)) as [| |a x b|a pv b] eqn:Ef; intros H; injection H as <- <-.
   - left; reflexivity.
   - apply find_place_append in Ef. destruct Ef as [Hne Hnew]. split; [exact Hnew|].
-    apply store_append. exact Hne.
+    refine (store_append md r c (Some lag) Hne).
   - right. split.
     + eapply find_place_not_append; [exact Ef|discriminate|discriminate].
-    + apply store_overwrite; [|discriminate|discriminate]. rewrite <- Ef. apply find_place_ok.
+    + refine (store_overwrite md r (PReplace a x b) c None _ _ _); [|discriminate|discriminate].
+      rewrite <- Ef. apply find_place_ok.
   - right. split.
     + eapply find_place_not_append; [exact Ef|discriminate|discriminate].
-    + apply store_overwrite; [|discriminate|discriminate]. rewrite <- Ef. apply find_place_ok.
+    + refine (store_overwrite md r (PShift a pv b) c None _ _ _); [|discriminate|discriminate].
+      rewrite <- Ef. apply find_place_ok.
 Qed.
 
 (* slot-wise consequence: a slot of the new ring is an old slot or the entry just written *)
